@@ -111,7 +111,7 @@ def c15(ctx):
       'O2: no field site in a CFG cycle, no two sites of equal provenance on one path, item sites re-executed only through the iterator step. '
       'O3: then/else sites mutually unreachable, dominated by the condition site and by the switch on its Bool payload. '
       'O4: from the failure edge of the `?` after a child site or handler call no evaluation / call / context write is reachable. '
-      'O5: no child site reachable from a handler call. O7: every Ok path passes every unconditional child site; loops are left towards Ok only when the iterator is exhausted. '
+      'O5: no child site reachable from a handler call. O7: every Ok path passes every unconditional child site; loops are left towards Ok only when the iterator is exhausted, and inside the loop the next iterator step is not reachable without evaluating the child (no `continue` past an entry\'s value). '
       'thorough additionally enumerates every acyclic path of these bodies and re-decides O1/O2/O3/O5 path by path (the two procedures must agree).',
       not_decided='nothing of the statement; what handlers themselves do is out of scope',
       assumptions=COMMON_ASSUME)
@@ -284,6 +284,7 @@ def c08(ctx):
       'UNSAFE: no unsafe block / fn / impl and no static mut (HIR scan); every static is a synchronised cell (OnceCell / Mutex) — with that, data-race freedom and "no torn map" follow from the type system. '
       'WINIT: every public entry point runs the once-initialiser before any registry access, the initialiser is a blocking once primitive, and the built-in fillers are reachable only from its closure '
       '(a hand-rolled flag set before the tables are filled moves the fillers out of a once-closure and is caught): no thread observes a partially initialised table. '
+      'LOCK-a: no handler (user code) is invoked while an engine guard is live — a handler that waits for another thread\'s engine call would otherwise stall or deadlock that thread on the registry mutex. '
       'LOCK-b: at every call site with a live guard no lock acquisition is reachable and the once-closure never re-enters its owner: the held->acquired graph is ONCE -> REGISTRY only, acyclic: no deadlock among engine locks under any schedule. '
       'LOCK-c: no engine panic site inside a guard-live region (no poisoning => lock().unwrap() cannot panic). '
       'REG-RECORD: one decision, one acquisition — no body reads two parts of the record registered under one name in separate lock acquisitions (type and handler of an infix operator), and none checks a name and then writes it in a second acquisition (check-then-act).',
@@ -295,7 +296,7 @@ def c13(ctx):
     obs = r_misc.rule_unsafe(ctx)
     obs += r_misc.rule_statics(ctx)
     obs += r_registry.rule_winit(rm)
-    o2, n = r_lock.rule_lock_a(lm, want=('b', 'c'))
+    o2, n = r_lock.rule_lock_a(lm, want=('a', 'b', 'c'))
     obs += o2
     obs += r_lock.rule_once(lm)
     obs += r_lock.rule_escape(lm)
@@ -384,7 +385,7 @@ def c03(ctx):
       'value = the ?-unwrapped result of that handler call applied to (left value, right value) (so a failing handler leaves the binding untouched), name = the ?-unwrapped Reference name of the LEFT operand (every other target is Err), '
       'followed only by Ok(Value::None), on every Ok path of the SETTER branch, not in a loop; no other evaluator body writes the context. '
       'CTXSTORE: the context writer chain stores (name, value) unchanged; Context::value returns Ok(None) for an absent name and the stored value for a variable; Reference nodes read under their own name. '
-      'CHAIN: a program\'s value is the loop-carried result initialised to None. ORDER-O4 (C07) gives "nothing assigned after a failure".',
+      'COMPOUND + HGATE: the handler of `op=` performs the operation of `op` on the same operand sides, and an operand it type-checks at all is type-checked on every path to an Ok result (`x op= e` fails when `x op e` fails: no short cut returns the old value unchecked). CHAIN: a program\'s value is the loop-carried result initialised to None. ORDER-O4 (C07) gives "nothing assigned after a failure".',
       not_decided='the contents of the context after arbitrary statement sequences (follows from the per-node clauses by induction, not machine-checked); x op= e == x op e is decided only up to TOP (thorough)',
       assumptions=COMMON_ASSUME)
 def c06(ctx):
@@ -396,6 +397,7 @@ def c06(ctx):
     obs += r_order.em_fallback(ctx.cache, prog, em, r_order.rule_o4, ('child', 'handler'))
     rows, probs = r_table.builtin_rows(prog, reg_model(ctx))
     obs += r_top.rule_compound(prog, rows)
+    obs += r_top.rule_compound_gate(prog, rows)
     # `x op= e` and `x op e` may build their result through different constructors (Value::Number(d) / Value::from(d)):
     # they agree only if the conversion is the identity wrap
     obs += [o for o in r_value.rule_tfrom(prog) if 'rust_decimal::Decimal' in o.key or 'bool' in o.key or 'String' in o.key]
